@@ -233,7 +233,8 @@ def build_pt(spec):
 
 def dense_torch(spec):
     import torch
-    return torch.from_numpy(np.ascontiguousarray(dense_of(spec)))
+    d = dense_of(spec)
+    return torch.from_numpy(np.array(d, copy=True)).reshape(d.shape)
 
 
 # ------------------------------------------------------------------ representation invariant (C06)
